@@ -315,7 +315,7 @@ def main(tier):
     rep.assume('gmtime: function of its argument, injective on seconds; calendar breakdown trusted',
                'snprintf modelled from the format string constants found in the IR; buffer sizes not modelled',
                'float-derived fields of the constructor (sample_rate, init_utc_timestamp, max_chunk_size) havoc')
-    rate_list = rates.QUICK_RATES if tier == 'quick' else rates.thorough_rates(60)
+    rate_list = (rates.QUICK_RATES if tier == 'quick' else rates.thorough_rates(60)) + rates.HIGH_RATES
     cad_list = rates.QUICK_CADENCES if tier == 'quick' else rates.thorough_cadences()
     viol_cases = []
 
